@@ -16,28 +16,43 @@ MAP_OPS = "ISGCRL"
 SET_OPS = "ICRL"
 
 
-def gen_function(name, ops, is_set):
-    """Abra function performing `ops` on a fresh map<int,int> (or set<int>) and returning all observations as array<int>."""
+KEY_TYPE = """type Key = { id: int }
+implement Hash for Key {
+    fn hash(k) = 7
+}
+implement Equal for Key {
+    fn equal(a, b) = a.id == b.id
+}
+"""
+
+
+def gen_function(name, ops, is_set, kmode="int"):
+    """Abra function performing `ops` on a fresh map<int,int> (or set<int>) and returning all observations as array<int>.
+    kmode 'ck': the keys are values of a user type whose Hash implementation is constant (every pair of distinct keys has the same full hash)."""
     params, body = [], []
+    kt = "Key" if kmode == "ck" else "int"
     body.append("  let out: array<int> = []")
-    body.append("  let m: set<int> = set.new()" if is_set else "  let m: map<int, int> = map.new()")
+    body.append("  let m: set<%s> = set.new()" % kt if is_set else "  let m: map<%s, int> = map.new()" % kt)
     for i, op in enumerate(ops):
         k, v = "k%d" % i, "v%d" % i
+        kp = k
+        if kmode == "ck":
+            k = "Key(%s)" % k
         if op == "I":
-            params += [k + ": int"] + ([] if is_set else [v + ": int"])
+            params += [kp + ": int"] + ([] if is_set else [v + ": int"])
             body.append("  m.insert(%s)" % k if is_set else "  m.insert(%s, %s)" % (k, v))
         elif op == "S":
-            params += [k + ": int", v + ": int"]
+            params += [kp + ": int", v + ": int"]
             body.append("  m[%s] = %s" % (k, v))
         elif op == "G":
-            params += [k + ": int"]
+            params += [kp + ": int"]
             body.append("  let o%d = m.try_get(%s)" % (i, k))
             body.append("  if o%d.is_some() { out.push(1); out.push(o%d.unwrap()) } else { out.push(0); out.push(0) }" % (i, i))
         elif op == "C":
-            params += [k + ": int"]
+            params += [kp + ": int"]
             body.append("  if m.contains(%s) { out.push(1) } else { out.push(0) }" % k)
         elif op == "R":
-            params += [k + ": int"]
+            params += [kp + ": int"]
             body.append("  if m.remove(%s) { out.push(1) } else { out.push(0) }" % k)
         elif op == "L":
             body.append("  out.push(m.len())")
@@ -131,11 +146,15 @@ def run(outcome, _harnesses):
     t = tier()
     seqs = sequences(t, rng)
     fns = []
-    src = "use core/map\nuse core/set\n"
+    src = "use core/map\nuse core/set\n" + KEY_TYPE
     calls = []
-    for idx, (ops, is_set) in enumerate(seqs):
-        name = "vf_%s_%d_%s" % ("s" if is_set else "m", idx, ops)
-        f, nparams = gen_function(name, ops, is_set)
+    # keys with colliding hashes: a user key type with a constant Hash implementation, ids symbolic
+    ck_map = ["IIRG", "IIRC", "IRIG", "IIG", "ISG"] + (["IIIRG", "IIRRC", "IIRIG", "IIRL"] if t == "thorough" else [])
+    ck_set = ["IIRC"] + (["IIIRC", "IRIC"] if t == "thorough" else [])
+    seqs = [(o, st_, "int") for o, st_ in seqs] + [(o, False, "ck") for o in ck_map] + [(o, True, "ck") for o in ck_set]
+    for idx, (ops, is_set, kmode) in enumerate(seqs):
+        name = "vf_%s%s_%d_%s" % ("s" if is_set else "m", "" if kmode == "int" else "_ck", idx, ops)
+        f, nparams = gen_function(name, ops, is_set, kmode)
         src += f
         calls.append("%s(%s)" % (name, ", ".join(str(i + 1) for i in range(nparams))))
         fns.append((name, ops, is_set, nparams))
@@ -175,10 +194,11 @@ def run(outcome, _harnesses):
     rdir = os.path.join(VERIF, "replays", "C27")
     long_domain = [-(1 << 63), -1, 0, 1, 4, 5, 8, (1 << 63) - 1]
     for name, ops, is_set, nparams, pattern in [f + (None,) for f in fns] + chains:
-        entry = {"sequence": ops, "container": "set<int>" if is_set else "map<int,int>"}
+        ck = "_ck_" in name
+        entry = {"sequence": ops, "container": ("set<%s>" if is_set else "map<%s,int>") % ("Key (constant hash)" if ck else "int")}
         if pattern is not None:
             entry["keys"] = "concrete %s, values and probe symbolic" % [x for x in pattern if not isinstance(x, str)]
-        long_seq = len(ops) >= 4 and pattern is None
+        long_seq = len(ops) >= 4 and pattern is None and not ck
         try:
             def build(i):
                 args = [i.make("int") for _ in range(nparams)]
@@ -239,7 +259,7 @@ def run(outcome, _harnesses):
             verdict = "violated"
             mdl = s.model()
             vals = [mdl.eval(v, model_completion=True).as_signed_long() for v in inp.leaves]
-            key = "%s:%s" % (ops + ("_set" if is_set else ""), "error_" + st.status if st.status != "done" else "mismatch")
+            key = "%s:%s" % (ops + ("_set" if is_set else "") + ("_collide" if ck else ""), "error_" + st.status if st.status != "done" else "mismatch")
             entry["counterexample"] = vals
             if outcome.findings.lookup("C27", key) is not None:
                 outcome.violation(key, what, None)
@@ -267,10 +287,10 @@ def run(outcome, _harnesses):
         "samples": samples[:60],
         "sequences": len(fns),
         "functions_encoded": ["modules/core/map.abra: new, insert, try_get, contains, remove, len, resize, index_set (compiled bytecode)",
-                              "modules/core/set.abra: new, insert, contains, remove, len", "prelude Hash/Equal for int, array.filled, option.is_some/unwrap"],
+                              "modules/core/set.abra: new, insert, contains, remove, len", "prelude Hash/Equal for int, user Hash/Equal implementations of the template key type, array.filled, option.is_some/unwrap"],
         "bounds": "operation sequences: quick = %d curated sequences of length <= 4; thorough = all sequences of length <= 3 over {insert, index-set, "
                   "try_get, contains, remove, len} plus three resize/slot-reuse sequences of length 5..9 whose keys range over an 8-value symbolic "
-                  "domain; keys: int only. Outside: string keys, tables beyond 8 buckets, get() of a missing key (documented panic)." % len(fns),
+                  "domain; keys: int, and a user key type whose Hash is constant (all distinct keys share one full hash; ids symbolic) for %d sequences. Outside: string and tuple keys, tables beyond 8 buckets, get() of a missing key (documented panic)." % (len(fns), len(ck_map) + len(ck_set)),
         "queries": queries,
         "solver_s": round(solver_s, 2),
         "programs": 1,
